@@ -67,6 +67,9 @@ FUNCS = {
     ('sel', False): lambda a, c, x, y: x if c else y,
     ('glen', True): lambda *a, g: sum(1 for v in g if v) + len(a),
     ('glen', False): lambda a, g: sum(1 for v in g if v) + len(a),
+    # a result CPython does not intern: every call returns a FRESH int object equal to the previous one
+    ('big', True): lambda *a: 1000 + sum(1 for v in a if v),
+    ('big', False): lambda a: 1000 + sum(1 for v in a if v),
 }
 
 
@@ -379,6 +382,8 @@ def expected_output(cb, inputs, own):
     if fn == 'f':
         if cb['script'] == 'cnt':
             exp = sum(1 for v in pos if v)
+        elif cb['script'] == 'big':
+            exp = 1000 + sum(1 for v in pos if v)
         elif cb['script'] == 'sel':
             exp = inputs['x'] if inputs['c'] else inputs['y']
         else:
